@@ -7,6 +7,9 @@
 // Every operation runs under catch_unwind; a panic is the result `PANIC`.
 mod ops;
 mod sexp;
+mod areas {
+    include!(concat!(env!("OUT_DIR"), "/areas.rs"));
+}
 
 use sexp::S;
 use std::collections::HashMap;
